@@ -502,9 +502,30 @@ def classify(analysis, what, fact, observed, tr):
             return 'C13-F2'   # a list-valued definition kept as a constant across a mutation
     if analysis == 'ValueClassInfer' and any(isinstance(e, A.Sum) for e in tr.exprs):
         return 'C13-F4'   # sum() of a one-element list passes the element through unrounded
+    if analysis == 'ArraySizeInfer' and replaces_rows(tr.F):
+        return 'C13-F6'   # a list stored into a nested list (through an alias / by a callee): another name's element sizes go stale
     if analysis == 'ArraySizeInfer' and has_early_return(tr.F.ast):
         return 'C13-F3'   # an unconditional zip/assert after an early return constrains the inputs globally
     return None
+
+def replaces_rows(F) -> bool:
+    """does the function store a list(-carrying value) into a list, or hand a list of lists to a call?"""
+    if F.ti is None: return False
+    found = []
+    def nested(ty):
+        if isinstance(ty, ListType): return carries_list(ty.elt)
+        if isinstance(ty, TupleType): return any(nested(t) for t in ty.elts)
+        return False
+    class V(fp.ast.DefaultVisitor):
+        def _visit_indexed_assign(self, stmt, ctx):
+            if carries_list(F.ti.by_expr.get(stmt.expr)): found.append(stmt)
+            super()._visit_indexed_assign(stmt, ctx)
+        def _visit_call(self, e, ctx):
+            if not (isinstance(e.fn, type) and issubclass(e.fn, Context)) and any(nested(F.ti.by_expr.get(a)) for a in e.args): found.append(e)
+            super()._visit_call(e, ctx)
+    try: V()._visit_function(F.ast, None)
+    except Exception: pass
+    return bool(found)
 
 def has_early_return(func) -> bool:
     found = []
